@@ -1297,7 +1297,10 @@ class Attribute(DomainMapping):
     def _is_iterable_(self):
         if not self._wrapped_field_:
             return False
-        return self._wrapped_field_.is_iterable
+        # a collection of builtin values (List[str]) is a collection as well
+        return self._wrapped_field_.is_container and hasattr(
+            self._wrapped_field_.container_type, "__iter__"
+        )
 
     @cached_property
     def _wrapped_type_(self):
